@@ -69,6 +69,8 @@ def ob_block(w, P):
     raise_at = x.s.v_int('raise_at', 0, len(ops))  # == len(ops): the block completes
     etag = x.opt_tag('etag') if 'evict' in ops else None
 
+    swallowed = []
+
     def body():
         with c.transact():
             for i, kind in enumerate(ops):
@@ -77,8 +79,20 @@ def ob_block(w, P):
                 if nested:
                     with c.transact():
                         do_op(c, kind, keys[i][0], vals[i], etag)
+                elif P.get('fault_swallow'):
+                    # one injected failure (database error at a statement, OS error at a file operation) inside an operation of the
+                    # block; the caller handles it and the block goes on and commits
+                    try:
+                        do_op(c, kind, keys[i][0], vals[i], etag)
+                    except (w.sqlite3.OperationalError, OSError) as e:
+                        if 'injected' not in str(e):
+                            raise
+                        swallowed.append(i)
+                        flag('fault_swallowed')
                 else:
                     do_op(c, kind, keys[i][0], vals[i], etag)
+    if P.get('fault_swallow'):
+        w.fault_at = x.s.v_int('fault_at', 0, P.get('max_events', 24))
     if P.get('crash'):
         # the process is killed at a symbolic event inside the block: all-or-nothing for the whole block, every committed
         # row keeps its value file (Ctx.call raises the kill outcome)
@@ -109,7 +123,20 @@ def ob_block(w, P):
         body()
     except (Boom, BoomBase):
         raised = True
+    except (w.sqlite3.OperationalError, OSError, w.L.core.Timeout) as e:
+        if not (P.get('fault_swallow') and ('injected' in str(e) or isinstance(e, w.L.core.Timeout))):
+            raise
+        raised = True  # the failure hit the block's own BEGIN / COMMIT or a statement outside the operations: the block is abandoned
+        flag('fault_escaped')
     x.end()
+    if P.get('fault_swallow'):
+        w.fault_at = None
+        if not raised:
+            flag('block_committed')
+        x.add('C08,C06', 'after a block in which one operation failed (and was handled) the counters match', state.inv_table(x.T1))
+        x.add('C08,C06', 'and every row has its value file and no file is left over', x.s.fs_inv(x.T1))
+        x.add('C06', 'the transaction is closed and no longer owned when the block exits', c._txn_id is None)
+        return x.result()
     log = [d for (_, kind, d) in w.log if kind == 'sql']
     begins = sum(1 for d in log if d.startswith('BEGIN'))
     ends = sum(1 for d in log if d.startswith(('COMMIT', 'ROLLBACK')))
@@ -582,10 +609,10 @@ def jobs(tier):
         for ops in ['setf+delete', 'pop+setf', 'set+set']:
             add('ob_block', 'C06,C08', weight=N * 2, must=['block_raised'], N=N, ops=ops, nested=True, no_cull=True)
         add('ob_block', 'C06,C08', weight=N * 3, N=N, ops='setf+pop', policy='least-recently-stored')
-        add('ob_block', 'C06,C08,C05', weight=N * 2, must=['block_raised'], N=N, ops='set+delete', exc='base', no_cull=True)
+        add('ob_block', 'C06,C08,C05,C20', weight=N * 2, must=['block_raised'], N=N, ops='set+delete', exc='base', no_cull=True)
         add('ob_block', 'C06,C08', weight=N * 2, must=['block_raised', 'prelude'], N=N, ops='delete', prelude=True, no_cull=True)
         add('ob_block', 'C06,C08', weight=N * 2, must=['block_raised', 'prelude'], N=N, ops='set+pop', prelude=True, no_cull=True)
-        add('ob_block', 'C06,C08,C05', weight=N * 2, must=['block_raised'], N=N, ops='setf', exc='base', nested=True, no_cull=True)
+        add('ob_block', 'C06,C08,C05,C20', weight=N * 2, must=['block_raised'], N=N, ops='setf', exc='base', nested=True, no_cull=True)
         # the batch removals (clear / expire / evict) inside a block: their file removals wait for the outer COMMIT too
         for ops in ('clear+set', 'expire+set', 'evict+delete', 'setf+clear'):
             add('ob_block', 'C06,C08,C03', weight=N * 2, must=['block_raised', 'block_committed'], N=N, ops=ops, no_cull=True)
@@ -593,6 +620,11 @@ def jobs(tier):
             add('ob_block', 'C07,C06', weight=N * 30, must=['crashed'], N=N, ops=ops, crash=True, no_cull=True)
         for who in ('handle', 'thread'):
             add('ob_block_isolation', 'C06,C05', weight=N * 2, must=['intruded_inside'], N=N, who=who)
+    for ops in ('setf+set', 'set+setf', 'setf+delete', 'setf+setf', 'pop+setf', 'setf+incr'):
+        add('ob_block', 'C08,C06', weight=8, must=['fault_swallowed', 'block_committed'], N=1, ops=ops, fault_swallow=True, no_cull=True)
+    # with culling on, a write has statements after its row is stored: a failure there leaves the row (and its file) in the block
+    for ops in ('setf+set', 'setf+delete'):
+        add('ob_block', 'C08,C06', weight=12, must=['fault_swallowed', 'block_committed'], N=1, ops=ops, fault_swallow=True, policy='least-recently-stored', max_events=30)
     for exc, how in (('base', 'block'), ('base', 'generator'), ('exc', 'block'), ('none', 'block')):
         add('ob_completed_then_kill', 'C07,C06', weight=6, must=['killed_after_completion'], N=1, exc=exc, how=how)
     for who in ('handle', 'thread'):
